@@ -83,6 +83,46 @@ func (s *State) Assume(h string) {
 	s.hyps = append(s.hyps, h)
 }
 
+// AssumeFor adds a hypothesis that is visible only to obligations carrying one of the given properties.
+// The scope travels with the hypothesis as a leading SMT comment; a hypothesis that gets wrapped (guards of
+// short-circuit evaluation, inlined summaries) loses the marker and is then visible everywhere, which is sound.
+func (s *State) AssumeFor(h string, cl Clause) {
+	if h == "true" {
+		return
+	}
+	if !cl.Only || len(cl.Props) == 0 {
+		s.hyps = append(s.hyps, h)
+		return
+	}
+	s.hyps = append(s.hyps, onlyMarker+strings.Join(cl.Props, ",")+"\n"+h)
+}
+
+const onlyMarker = ";@only="
+
+// visibleHyps filters scoped hypotheses for an obligation with the given properties.
+func visibleHyps(hyps []string, props []string) []string {
+	out := make([]string, 0, len(hyps))
+	for _, h := range hyps {
+		if strings.HasPrefix(h, onlyMarker) {
+			nl := strings.Index(h, "\n")
+			tags := strings.Split(h[len(onlyMarker):nl], ",")
+			seen := false
+			for _, t := range tags {
+				for _, p := range props {
+					if p == t {
+						seen = true
+					}
+				}
+			}
+			if !seen {
+				continue
+			}
+		}
+		out = append(out, h)
+	}
+	return out
+}
+
 // Obligation is one verification condition.
 type Obligation struct {
 	ID        string
@@ -178,7 +218,7 @@ func (c *FnCtx) oblige(st *State, kind, label string, goal string, props []strin
 		}
 		return
 	}
-	o := &Obligation{ID: c.oblID(kind, label), Kind: kind, Func: c.fi.Key, Props: props, Hyps: append(append([]string(nil), st.gfacts...), st.hyps...), Goal: goal,
+	o := &Obligation{ID: c.oblID(kind, label), Kind: kind, Func: c.fi.Key, Props: props, Hyps: append(append([]string(nil), st.gfacts...), visibleHyps(st.hyps, props)...), Goal: goal,
 		Decls: &c.decls, Pos: c.eng.Fset.Position(c.curPos), Path: strings.Join(st.path, ";"), GoalText: goalText, Opaque: c.opaqueFor(kind, label)}
 	c.obls = append(c.obls, o)
 }
